@@ -60,7 +60,7 @@ def first_error_line(stderr):
 
 def cases(ctx):
     r = ctx['rng']
-    n = 10 if ctx['tier'] == 'quick' else 600
+    n = 10 if ctx['tier'] == 'quick' else 200
     out = []
     for kind in ['clean'] * 4 + planted.MISTAKES:
         for _ in range(n):
